@@ -29,6 +29,7 @@ type c18Case struct {
 	Tree     fsmodel.Tree `json:"tree"`
 	Requests []string     `json:"requests"`
 	Transfer bool         `json:"transfer,omitempty"`
+	Disk     bool         `json:"disk,omitempty"` // differential: on-disk FS vs the in-memory one
 }
 
 func (c c18Case) String() string {
@@ -471,8 +472,63 @@ func runC18(r *evid.Run) {
 			cases = append(cases, c18Case{Tree: t, Requests: l, Transfer: tr})
 		}
 	}
+	// many links in one call: 45 requests through a link each, one wildcard over 45 two-link chains, and a single
+	// legal chain of 40 links
+	{
+		T := fsmodel.T0
+		lib := fsmodel.Tree{{Path: "lib", Kind: fsmodel.Dir, Perm: 0755, Mtime: T}}
+		var each []string
+		for i := 0; i < 45; i++ {
+			n := fmt.Sprintf("lib/l%02d.so", i)
+			lib = append(lib, fsmodel.Node{Path: n, Kind: fsmodel.Symlink, Perm: 0777, Mtime: T, Link: fmt.Sprintf("l%02d.so.1", i)},
+				fsmodel.Node{Path: n + ".1", Kind: fsmodel.Symlink, Perm: 0777, Mtime: T, Link: fmt.Sprintf("l%02d.so.1.0", i)},
+				fsmodel.Node{Path: n + ".1.0", Kind: fsmodel.File, Perm: 0644, Mtime: T, Data: []byte(n)})
+			each = append(each, n)
+		}
+		lib.Sort()
+		chain := fsmodel.Tree{{Path: "c40", Kind: fsmodel.File, Perm: 0644, Mtime: T, Data: []byte("end")}}
+		for i := 0; i < 40; i++ {
+			chain = append(chain, fsmodel.Node{Path: fmt.Sprintf("c%02d", i), Kind: fsmodel.Symlink, Perm: 0777, Mtime: T, Link: fmt.Sprintf("c%02d", i+1)})
+		}
+		chain.Sort()
+		cases = append(cases, c18Case{Tree: lib, Requests: each}, c18Case{Tree: lib, Requests: []string{"lib/*.so"}}, c18Case{Tree: lib, Requests: []string{"lib/*.so", "lib/l44.so.1"}},
+			c18Case{Tree: lib, Requests: each[40:], Transfer: true}, c18Case{Tree: chain, Requests: []string{"c00"}}, c18Case{Tree: chain, Requests: []string{"c*"}})
+	}
 	r.Set("cases", len(cases))
 	r.Set("trees", len(trees))
+	// the same request lists against the on-disk FS of the same tree (lazy stats, kernel errors such as ENOTDIR for
+	// a path through a file): the result must be the one the in-memory tree gives, which the oracle below judges
+	var diskCases atomic.Int64
+	par.Do(len(trees), par.Workers(), func(ti int) {
+		dir := scratch.Dir("fl")
+		defer scratch.Remove(dir)
+		if err := fsmodel.Materialize(trees[ti], dir); err != nil {
+			r.Violate("infra", err.Error(), nil)
+			return
+		}
+		dfs, err := fsutil.NewFS(dir)
+		if err != nil {
+			r.Violate("infra", err.Error(), nil)
+			return
+		}
+		for _, l := range lists {
+			mres, merr := fsutil.FollowLinks(&budgetFS{fs: memfs.New(trees[ti]), limit: 2000}, l)
+			if merr != nil && strings.Contains(merr.Error(), errBudget.Error()) {
+				continue // judged (as non-termination) by the main pass; do not recurse on disk
+			}
+			dres, derr := fsutil.FollowLinks(dfs, l)
+			diskCases.Add(1)
+			if merr != nil {
+				continue // the in-memory FS reports a wildcard below a non-directory as an error (acceptable, see the oracle); nothing to compare with
+			}
+			if derr != nil || fmt.Sprint(mres) != fmt.Sprint(dres) {
+				c := c18Case{Tree: trees[ti], Requests: l, Disk: true}
+				r.Violate("disk-differs-from-memory", fmt.Sprintf("%s: over the on-disk tree FollowLinks gives %q (%v), over the same tree in memory %q (%v)", c.String(), dres, derr, mres, merr), c)
+			}
+		}
+	})
+	r.Set("disk_cases", diskCases.Load())
+	r.Evaluations.Add(diskCases.Load())
 	par.Do(len(cases), par.Workers(), func(i int) {
 		c := cases[i]
 		key, msg := judgeC18(c)
@@ -496,6 +552,23 @@ func replayC18(raw json.RawMessage) string {
 	var c c18Case
 	if err := json.Unmarshal(raw, &c); err != nil {
 		return "bad case: " + err.Error()
+	}
+	if c.Disk {
+		dir := scratch.Dir("fl")
+		defer scratch.Remove(dir)
+		if err := fsmodel.Materialize(c.Tree, dir); err != nil {
+			return "infra: " + err.Error()
+		}
+		dfs, err := fsutil.NewFS(dir)
+		if err != nil {
+			return "infra: " + err.Error()
+		}
+		mres, merr := fsutil.FollowLinks(memfs.New(c.Tree), c.Requests)
+		dres, derr := fsutil.FollowLinks(dfs, c.Requests)
+		if merr == nil && (derr != nil || fmt.Sprint(mres) != fmt.Sprint(dres)) {
+			return fmt.Sprintf("disk-differs-from-memory: on disk %q (%v), in memory %q (%v)", dres, derr, mres, merr)
+		}
+		return ""
 	}
 	k, m := judgeC18(c)
 	if k == "" {
